@@ -555,3 +555,92 @@ func TestVerifC16(t *testing.T) {
 	}
 	o.stat("C16", map[string]interface{}{"files": len(pick), "variants": vars})
 }
+
+// TestVerifC14License (run with -race by bin/check): concurrent NearestMatch / MultipleMatch on ONE
+// licenseclassifier.License built from an archive — texts of archived licenses, edited copies, and
+// short snippets that pass the common-word gate but are close to no known value (the "no match"
+// result). Every result must equal the sequential one; callers own what they get back (a caller
+// that annotates its result must not change what later calls return).
+func TestVerifC14License(t *testing.T) {
+	o := newVout()
+	defer o.close()
+	r := newVrand(vseed() + 140)
+	files := []string{"MIT.txt", "ISC.txt", "BSD-3-Clause.txt", "Apache-2.0.header.txt", "Zlib.txt", "BSD-2-Clause.txt"}
+	lc, err := varchive(files)
+	if err != nil {
+		o.verdict("C14", "lic_load", false, true, "lic_load", map[string]interface{}{"what": err.Error()})
+		return
+	}
+	var queries []string
+	for _, f := range files {
+		txt := vread(f)
+		queries = append(queries, txt)
+		ws := strings.Fields(txt)
+		for j := range ws {
+			if j%17 == 5 {
+				ws[j] = "zzz"
+			}
+		}
+		queries = append(queries, strings.Join(ws, " "))
+	}
+	queries = append(queries, "this license is short", "permission is granted under the license", "software license copyright notice only",
+		"the license\n", vread("MIT.txt")+"\n\n"+vread("ISC.txt"))
+	show := func(m *stringclassifier.Match) string {
+		if m == nil {
+			return "nil"
+		}
+		return fmt.Sprintf("%s|%.9f|%d|%d", m.Name, m.Confidence, m.Offset, m.Extent)
+	}
+	wantN := make([]string, len(queries))
+	wantM := make([]string, len(queries))
+	for i, q := range queries {
+		wantN[i] = show(lc.NearestMatch(q))
+		wantM[i] = vshow(lc.MultipleMatch(q, true))
+	}
+	// a caller annotates what it was given; the next caller must not see it
+	what := ""
+	for i, q := range queries {
+		if m := lc.NearestMatch(q); m != nil {
+			m.Name = "kept by an earlier caller"
+			m.Confidence = 0.123
+		}
+		if got := show(lc.NearestMatch(q)); got != wantN[i] && what == "" {
+			what = fmt.Sprintf("query %d: NearestMatch returns %s after an earlier caller changed ITS result, %s before", i, got, wantN[i])
+		}
+	}
+	o.verdict("C14", "lic_owned", what == "", true, "lic_owned", map[string]interface{}{"what": what})
+	G := 8
+	if vthorough() {
+		G = 32
+	}
+	var wg sync.WaitGroup
+	var mu sync.Mutex
+	bad := ""
+	for g := 0; g < G; g++ {
+		wg.Add(1)
+		rr := r.fork(uint64(g)) // forked here: the generator itself is not for concurrent use
+		go func(g int) {
+			defer wg.Done()
+			for k := 0; k < 2*len(queries); k++ {
+				i := rr.intn(len(queries))
+				t0 := time.Now()
+				var got, want string
+				if (g+k)%2 == 0 {
+					got, want = show(lc.NearestMatch(queries[i])), wantN[i]
+				} else {
+					got, want = vshow(lc.MultipleMatch(queries[i], true)), wantM[i]
+				}
+				if got != want && time.Since(t0) < 600*time.Millisecond {
+					mu.Lock()
+					if bad == "" {
+						bad = fmt.Sprintf("goroutine %d query %d: concurrent %s, sequential %s", g, i, got, want)
+					}
+					mu.Unlock()
+				}
+			}
+		}(g)
+	}
+	wg.Wait()
+	o.verdict("C14", "lic_concurrent", bad == "", true, "lic_concurrent", map[string]interface{}{"what": bad, "goroutines": G, "queries": len(queries)})
+	o.stat("C14", map[string]interface{}{"license_queries": len(queries), "license_goroutines": G})
+}
